@@ -93,3 +93,18 @@ package memdb
 // The remaining clause of the ring ("it forgets only rounds older than everything it keeps", which needs the
 // permutation semantics of sort.Slice under quantifier alternation) did not discharge within the solver budget; it is
 // covered by a BOUNDED differential check against a reference sorted map (bounded/index.json), never counted as proved.
+
+// ---- C18: deleting a round from the ring removes exactly that round and keeps the order of the others -----------------
+//@ func (*Store).Del(s, ctx, round) (err)
+//@   props C18
+//@   flags lockcheck
+//@   requires memInv(s)
+//@   modifies s.store, elems(s.store)
+//@   loop 0: invariant [C18:mem-del-scan] -1 <= rangeindex0 && rangeindex0 < len(s.store) && s.store == old(s.store) && (forall k int {s.store[k]} :: 0 <= k && k <= rangeindex0 ==> s.store[k].Round != round)
+//@   ensures [C18:mem-del-of-an-absent-round-changes-nothing] foundIdx == -1 ==> s.store == old(s.store) && (forall k int {s.store[k]} :: 0 <= k && k < len(s.store) ==> s.store[k].Round != round)
+//@   ensures [C18:mem-del-removes-one-entry-of-that-round] foundIdx != -1 ==> 0 <= foundIdx && foundIdx < old(len(s.store)) && len(s.store) == old(len(s.store)) - 1
+//@   ensures [C18:mem-del-never-fails] err == nil
+//@   ensures [C18:mem-del-removes-the-entry-of-that-round] foundIdx != -1 ==> old(s.store[foundIdx].Round) == round
+//@   ensures [C18:mem-del-keeps-the-entries-before-it] foundIdx != -1 ==> (forall k int {s.store[k]} :: 0 <= k && k < foundIdx ==> s.store[k] == old(s.store[k]))
+// (that the entries after the removed one keep their order - new[k] == old[k+1] - did not discharge within the budget:
+// the in-place append over an overlapping region needs a quantified copy argument; not claimed)
